@@ -8,7 +8,7 @@ KINDS = ["t4", "t6", "un"]
 
 
 def gen_scenario(rng, flavour=None):
-    fl = flavour or rng.choice(["servers", "servers", "servers", "ipc", "ipcbig", "connect", "mixed", "cscript", "backlog"])
+    fl = flavour or rng.choice(["servers", "servers", "servers", "ipc", "ipcbig", "connect", "mixed", "cscript", "backlog", "prebind"])
     L = []
     meta = {"drained": set(), "fl": fl}
     if fl in ("servers", "mixed"):
@@ -65,6 +65,21 @@ def gen_scenario(rng, flavour=None):
         L.append("run 3")
         for s_ in range(ns):
             L.append(f"drain {s_}"); meta["drained"].add(s_)
+    if fl == "prebind":
+        # tcp client handles that carry state from earlier calls when uv_tcp_connect() runs: bound to a port in use
+        # (EADDRINUSE deferred by uv_tcp_bind), bound to a free port, or already connecting (second connect -> UV_EALREADY);
+        # the target is a live listener, so "was the connection established" is observable on the server side
+        ns = rng.range(1, 2)
+        for s_ in range(ns):
+            L.append(f"server {s_} {rng.choice(['t4', 't4', 't6'])} {rng.choice(['imm', 'imm', 'defer'])}")
+        for c in range(rng.range(2, 7)):
+            if rng.chance(1, 4): L.append(f"uvc {c} {rng.below(ns)}")
+            else: L.append(f"uvcb {c} {rng.below(ns)} {rng.choice(['inuse', 'inuse', 'free', 'twice'])}")
+            if rng.chance(1, 8): L.append(f"closecli {c}")
+            if rng.chance(1, 3): L.append("run 1")
+        L.append("run 3")
+        for s_ in range(ns):
+            L.append(f"drain {s_}"); meta["drained"].add(s_)
     if fl == "backlog":
         # Unix-socket (and tcp) server with a tiny listen backlog, burst of uv clients, accept deferred:
         # non-blocking AF_UNIX connect() answers EAGAIN when the backlog is full
@@ -111,7 +126,7 @@ def sim_monitor(prog, meta, out):
     for l in prog:
         w = l.split()
         if w[0] == "server": srv_mode[int(w[1])] = w[3]
-        if w[0] in ("raw", "uvc"): cli_sid[int(w[1])] = int(w[2]); cli_kind[int(w[1])] = w[0]
+        if w[0] in ("raw", "uvc", "uvcb"): cli_sid[int(w[1])] = int(w[2]); cli_kind[int(w[1])] = "uvc" if w[0] == "uvcb" else w[0]
         if w[0] == "closecli": self_closed.add(int(w[1]))
     if any(o == "bad-op" for o in out):
         return ("sim-badop", "harness did not understand an op")
@@ -151,6 +166,20 @@ def sim_monitor(prog, meta, out):
             if cli_sid.get(t) != s: return ("token-wrong-server", f"stream accepted on server {s} carries the token of client {t} (server {cli_sid.get(t)})")
             if d.get("extra", "0") != "0": return ("token-extra", f"accepted stream carries extra bytes: {o}")
             seen[t] = s
+    # a client that was told "failed" must not have been handed to the server, and vice versa (tcp: matched by port)
+    lport = {}
+    for o in out:
+        w = o.split()
+        if w[0] == "concb" and "lport" in kv(o) and int(kv(o)["lport"]) > 0: lport[int(kv(o)["lport"])] = (int(w[1]), int(kv(o)["status"]))
+        if w[0] in ("bind", "uvc2"):
+            exp = -114 if w[0] == "uvc2" else 0
+            if int(kv(o)["r"]) != exp: return (w[0] + "-return", f"{o}: expected {exp}")
+    for o in out:
+        w = o.split()
+        if w[0] == "acc" and "pport" in kv(o) and int(kv(o)["pport"]) in lport:
+            c, st = lport[int(kv(o)["pport"])]
+            if st != 0 and c not in self_closed:
+                return ("connect-failed-status-but-established", f"connect callback of client {c} reported {st}, yet server {w[1]} was handed its connection by uv_accept (peer port {kv(o)['pport']})")
     alive, fired, spare = {}, 0, "1"
     for o in out:
         w = o.split()
@@ -363,6 +392,7 @@ def model_diff(ctx, prog, out):
         w = o.split(); d = kv(o)
         if w[0] == "sys" and w[1] == "connect": ev.setdefault(int(d["cid"]), []).append(("connect", int(d["ret"])))
         elif w[0] == "sys" and w[1] == "soerror": ev.setdefault(int(d["cid"]), []).append(("so", int(d["val"])))
+        elif w[0] == "bind": ev.setdefault(int(w[1]), []).append(("bind", -98 if w[2] == "inuse" else 0, int(d["r"])))
         elif w[0] == "uvc" and "kind" in d: ev.setdefault(int(w[1]), []).append(("ret", int(d["r"]), d["kind"]))
         elif w[0] == "concb": ev.setdefault(int(w[1]), []).append(("cb", int(d["status"])))
         elif w[0] == "closecli" and int(w[1]) in ev: ev[int(w[1])].append(("close",))
@@ -370,8 +400,10 @@ def model_diff(ctx, prog, out):
         rets = [e for e in es if e[0] == "ret"]
         if not rets: continue
         conns = [e[1] for e in es[:es.index(rets[0])] if e[0] == "connect" and e[1] != -4]
-        if not conns: continue            # refused before connect(2) (not produced by the generator)
-        q = [f"tcp 0 {conns[-1]}" if rets[0][2] == "tcp" else f"pipe 0 0 {conns[-1]}"]
+        binds = [e for e in es[:es.index(rets[0])] if e[0] == "bind"]
+        if not conns and not binds: continue            # refused before connect(2) (not produced by the generator)
+        q = [f"bind {b[1]}" for b in binds]
+        q.append((f"tcp 0 {conns[-1] if conns else 0}") if rets[0][2] == "tcp" else f"pipe 0 0 {conns[-1]}")
         so, closed, impl_cbs = 0, False, []
         for e in es[es.index(rets[0]) + 1:]:
             if e[0] == "so": so = e[1]
@@ -384,9 +416,13 @@ def model_diff(ctx, prog, out):
         if fin and not closed and int(fin["cbs"]) > len(impl_cbs) : q += ["close", "destroy"]
         if fin and int(fin["cbs"]) > len(impl_cbs): impl_cbs.append(fin["status"])
         mo = ctx.driver(["connect"], "\n".join(q) + "\n").splitlines()
+        mb = [x for x in mo if x.startswith("bind")]; mo = [x for x in mo if not x.startswith("bind")]
         mret = mo[0].split()[1]; mcbs = [x.split()[2] for x in mo[1:] if x.startswith("cb")]
-        if mret != str(rets[0][1]) or mcbs != impl_cbs:
-            return f"uv client {c} ({rets[0][2]}), connect(2) -> {conns[-1]}: impl ret={rets[0][1]} callbacks={impl_cbs}  model ret={mret} callbacks={mcbs}"
+        mconn = kv(mo[0]).get("connects")
+        if [x.split()[1] for x in mb] != [str(b[2]) for b in binds]:
+            return f"uv client {c}: uv_tcp_bind returned {[b[2] for b in binds]}, model {mb}"
+        if mret != str(rets[0][1]) or mcbs != impl_cbs or mconn != str(1 if conns else 0):
+            return f"uv client {c} ({rets[0][2]}), connect(2) calls {conns}: impl ret={rets[0][1]} callbacks={impl_cbs}  model ret={mret} connects={mconn} callbacks={mcbs}"
     # failing connects
     for l in prog:
         w = l.split()
@@ -477,6 +513,7 @@ FIXED = [
     (["server 0 t6 imm", "inject 24", "raw 0 0", "raw 1 0", "run 2", "raw 2 0", "run 2", "inject 23", "raw 3 0", "run 2", "raw 4 0", "run 2", "end"], set()),
     (["dblconnect 100 101", "run 3", "end"], set()),
     (["ipcbig tpu 10 4 -11 3 0 2 2", "end"], set()),
+    (["server 0 t4 imm", "server 1 t6 defer", "uvcb 0 0 inuse", "uvcb 1 0 free", "uvcb 2 1 twice", "uvcb 3 1 inuse", "uvc 4 0", "run 3", "drain 1", "end"], {1}),
     (["server 0 un defer 0", "uvc 0 0", "uvc 1 0", "uvc 2 0", "uvc 3 0", "uvc 4 0", "run 3", "drain 0", "end"], {0}),
     (["server 0 un imm", "server 1 t4 imm", "cscript -4 -4 1", "uvc 0 1", "cscript -13", "uvc 1 1", "cscript -13", "uvc 2 0", "cscript -111", "uvc 3 1",
       "cscript -11", "uvc 4 1", "cscript -11", "uvc 5 0", "cscript -2", "uvc 6 0", "cscript -99", "uvc 7 0", "cscript -4 1", "uvc 8 0", "run 3", "end"], set()),
